@@ -31,6 +31,7 @@
 EXTENDS Graph
 
 MaxLen == 9
+MaxOfSet(S) == CHOOSE x \in S : \A y \in S : y <= x
 
 Childs(p) == {p[i].child : i \in 1..Len(p)}
 
@@ -121,14 +122,28 @@ StartEdges(o) ==
 WalkObsJudge(o) ==
   LET E  == RangeOf(o.edges)
       SE == StartEdges(o)
-      js == {LET perm == Permitted(E, s) IN
-             [why  |-> WalkReasons2(E, s, o.chains, perm, Required(E, s)),
-              open |-> Cardinality(perm \ RangeOf(o.chains))] : s \in SE}
+      js == {LET perm == Permitted(E, s)
+                 req  == Required(E, s) IN
+             [why  |-> WalkReasons2(E, s, o.chains, perm, req),
+              open |-> Cardinality(perm \ RangeOf(o.chains)),
+              nreq |-> Cardinality(req), maxlen |-> IF req = {} THEN 0 ELSE MaxOfSet({Len(p) : p \in req})] : s \in SE}
       base == (IF o.panic # "" THEN {"panic"} ELSE {}) \cup (IF o.closed THEN {} ELSE {"channel-not-closed"})
       good == {j \in js : j.why = {}}
       pick == IF good # {} THEN CHOOSE j \in good : TRUE ELSE CHOOSE j \in js : TRUE
-  IN IF SE = {} THEN [why |-> base \cup {"start-edge-not-in-graph"}, open |-> 0]
-     ELSE [why |-> base \cup pick.why, open |-> pick.open]
+  IN IF SE = {} THEN [why |-> base \cup {"start-edge-not-in-graph"}, open |-> 0, nreq |-> 0, maxlen |-> 0]
+     ELSE [why |-> base \cup pick.why, open |-> pick.open, nreq |-> pick.nreq, maxlen |-> pick.maxlen]
 
 WalkObsReasons(o) == WalkObsJudge(o).why
+
+\* coverage tags computed from the input side (graph and start) only
+WalkCover(o, j) ==
+  {w \in {"required-path", "two-required-paths", "no-path", "synthesised-start-with-path", "optional-path",
+          "path-of-max-length", "path-of-4"} :
+     CASE w = "required-path"      -> j.nreq >= 1
+       [] w = "two-required-paths" -> j.nreq >= 2
+       [] w = "no-path"            -> j.nreq = 0
+       [] w = "synthesised-start-with-path" -> ~o.start.ingraph /\ j.nreq >= 1
+       [] w = "optional-path"      -> j.why = {} /\ j.open > 0
+       [] w = "path-of-max-length" -> j.maxlen = MaxLen
+       [] w = "path-of-4"          -> j.maxlen >= 4}
 =============================================================================
